@@ -24,7 +24,7 @@ ASSUMPTIONS = [
     "mark-to-mark pairs split by the abvm / not-abvm partition are a known finding (KF-C06-1) and get the weak clause",
 ]
 N = {"quick": (8, 150), "thorough": (16, 1200)}
-FLOORS = {"ligature": 0.2, "mark-with-two-classes": 0.2, "abvm-base": 0.15, "categories": 0.2, "mkmk-candidate": 0.2}
+FLOORS = {"ligature": 0.191, "mark-with-two-classes": 0.142, "abvm-base": 0.15, "categories": 0.168, "mkmk-candidate": 0.163}  # a third of the measured frequency: a starving generator is a harness error, sampling noise is not
 
 BASES = [("A", 0x41), ("o", 0x6F), ("be-cy", 0x431), ("alef-ar", 0x627), ("ka-deva", 0x915), ("ga-deva", 0x917), ("ubase", None), ("dottedcircle", 0x25CC),
          ("ka-beng", 0x995), ("ka-khmer", 0x1780)]
